@@ -506,6 +506,24 @@ func MS[T any](s *Sel, i int, ch chan<- T) chan<- T {
 	return make(chan T, 1) // the real send already happened
 }
 
+// AfterFunc replaces time.AfterFunc in instrumented files: f runs after d in a
+// registered goroutine (a child of the caller), so that its seam calls are
+// scheduling points like everybody else's. The returned stop function is not
+// provided: the instrumented code does not use the timer.
+func AfterFunc(label string, d time.Duration, f func()) {
+	if cur.Load() == nil {
+		time.AfterFunc(d, f)
+		return
+	}
+	Go(label, func() {
+		if d > 0 {
+			time.Sleep(d)
+			Point(label + ":fired")
+		}
+		f()
+	})
+}
+
 // Sleep parks, then sleeps d of (virtual) time.
 func Sleep(d time.Duration) {
 	Point("sleep")
